@@ -360,6 +360,23 @@ func init() {
 				}
 				if s := dryLoad(dir, p.W); s != nil {
 					p.Passes = genNameChangingPasses(r, s)
+					if sr := r.Side("map-key-ref"); !constRefs && sr.Chance(1, 6) {
+						// a reference used as the index type of a map (hand-written type): the
+						// history starts by adding such an object, the name-changing passes follow
+						view := ViewOf(s)
+						if pk := view.pickPkg(sr); pk != nil && len(pk.Objects) > 0 {
+							target := Pick(sr, pk.Objects).Name
+							first := PassSpec{Kind: "add_object", Obj: pk.Name + ".KeyedBy" + target, Type: &TypeSpec{K: "map",
+								Index: &TypeSpec{K: "ref", RefPkg: pk.Name, RefName: target}, Elem: &TypeSpec{K: "string"}}}
+							p.Passes = append([]PassSpec{first}, p.Passes...)
+							for i := range p.Passes[1:] {
+								ps := &p.Passes[1+i]
+								if (ps.Kind == "rename_object" || ps.Kind == "replace_reference") && sr.Chance(1, 2) {
+									ps.Obj = pk.Name + "." + target
+								}
+							}
+						}
+					}
 					if constRefs {
 						first := PassSpec{Kind: "duplicate_object", Obj: "pkga.UsesKind", To: "pkga.UsesKindCopy"}
 						if r.Bool() {
